@@ -346,8 +346,11 @@ def run_property(pid, tier, seed):
         if not ok:
             broken.append({"stage": "proof-build", "what": out[-3000:]})
         else:
-            for pf in getattr(mod, "PROP_FILES", []):
-                ok, ths, ax, probs, out = ctx.check_prop_file(pf)
+            pfs = list(getattr(mod, "PROP_FILES", []))
+            from concurrent.futures import ThreadPoolExecutor as _TPE      # the property files are re-checked side by side (one coqc each)
+            with _TPE(max_workers=max(1, min(6, len(pfs)))) as _ex:
+                results = list(_ex.map(ctx.check_prop_file, pfs))
+            for pf, (ok, ths, ax, probs, out) in zip(pfs, results):
                 theorems += ths; axioms.update(ax)
                 obligations += len(ths)
                 if ok:
